@@ -59,6 +59,28 @@ func (t *vfTCPClient) null(xid uint32, wait time.Duration) (bool, bool, bool) {
 	return err == nil && rep.XID == xid, false, false
 }
 
+// nullDenied is null, reporting whether the reply was MSG_DENIED (what a refused request gets).
+func (t *vfTCPClient) nullDenied(xid uint32, wait time.Duration) (denied, closed, timeout bool) {
+	t.c.SetDeadline(time.Now().Add(wait))
+	if _, err := t.c.Write(xdrw.Record(xdrw.CallHeader(xid, vfProgNFS, 3, 0, xdrw.Cred{}))); err != nil {
+		return false, true, false
+	}
+	var h [4]byte
+	if _, err := io.ReadFull(t.c, h[:]); err != nil {
+		if ne, ok := err.(net.Error); ok && ne.Timeout() {
+			return false, false, true
+		}
+		return false, true, false
+	}
+	n := (uint32(h[0])<<24 | uint32(h[1])<<16 | uint32(h[2])<<8 | uint32(h[3])) & 0x7fffffff
+	b := make([]byte, n)
+	if _, err := io.ReadFull(t.c, b); err != nil {
+		return false, true, false
+	}
+	rep, err := rfc.DecodeReply(b)
+	return err == nil && rep.Denied, false, false
+}
+
 func vfAbsnfsGoroutines(frames ...string) map[string]int {
 	buf := make([]byte, 4<<20)
 	buf = buf[:runtime.Stack(buf, true)]
@@ -83,6 +105,7 @@ func TestVerif_C17(t *testing.T) {
 	}
 	for ep := 0; ep < evid.Pick(6, 200) && rec.Violations() < 25; ep++ {
 		vfC17Idle(rec, ep)
+		vfC17IdleThrottled(rec, ep)
 	}
 	for ep := 0; ep < evid.Pick(12, 300) && rec.Violations() < 30; ep++ {
 		vfC17Lifecycle(rec, ep)
@@ -1078,4 +1101,73 @@ func vfC17UnexportOwnServer(rec *evid.Rec) {
 		}
 		srv.Close()
 	}
+}
+
+// vfC17IdleThrottled: idle reaping of connections whose LAST call was refused by the request rate
+// limiter (rate limiting on, one request per connection allowed). Such a connection is as idle as any
+// other once its idle time has passed: a cleanup pass closes it and takes it out of the count.
+func vfC17IdleThrottled(rec *evid.Rec, ep int) {
+	rng := evid.Rng(171771, int64(ep))
+	cfg := DefaultRateLimiterConfig()
+	cfg.PerConnectionRequestsPerSecond, cfg.PerConnectionBurstSize = 1, 1
+	fs := refs.New()
+	srv, err := vfNewSrv(fs, ExportOptions{AttrCacheTimeout: 5 * time.Second, MaxConnections: 16, IdleTimeout: time.Hour, EnableRateLimiting: true, RateLimitConfig: &cfg})
+	if err != nil {
+		rec.Infra(err.Error())
+		return
+	}
+	if err := srv.srv.Listen(); err != nil {
+		rec.Infra(err.Error())
+		srv.Close()
+		return
+	}
+	defer func() { srv.srv.Stop(); srv.Close() }()
+	port := srv.srv.GetPort()
+	n := 3 + rng.Intn(4)
+	cls := make([]*vfTCPClient, n)
+	local := map[string]int{}
+	throttled := 0
+	for i := range cls {
+		c, err := vfDial(port)
+		if err != nil {
+			rec.Inconclusive(1)
+			return
+		}
+		cls[i] = c
+		local[c.c.LocalAddr().String()] = i
+		// the first call uses the connection's budget, the following ones are refused
+		for k := 0; k < 3; k++ {
+			denied, closed, to := c.nullDenied(uint32(10*i+k+1), 20*time.Second)
+			if to || closed {
+				rec.Inconclusive(1)
+				return
+			}
+			if denied {
+				throttled++
+			}
+		}
+	}
+	if throttled == 0 {
+		rec.Distinct("idle-throttled|nothing-was-throttled")
+		return
+	}
+	vfBackdateConns(srv.srv, 2*time.Hour, func(c net.Conn) bool { _, ok := local[c.RemoteAddr().String()]; return ok })
+	srv.srv.cleanupIdleConnections()
+	survived := 0
+	for i, c := range cls {
+		_, closed, to := c.null(uint32(500+i), 20*time.Second)
+		if to {
+			rec.Inconclusive(1)
+			continue
+		}
+		if !closed {
+			survived++
+		}
+		c.c.Close()
+	}
+	rec.Eval(n)
+	if survived > 0 {
+		rec.Violate("C17/idle-connection-survived-cleanup/last-call-was-refused-by-the-rate-limiter", fmt.Sprintf("%d of %d connections idle for 2h (IdleTimeout 1h) are still open after a cleanup pass; their last calls had been refused by the per-connection request limit", survived, n), nil)
+	}
+	rec.Distinct(fmt.Sprintf("idle-throttled|conns=%d|survived=%d", n, survived))
 }
